@@ -1334,12 +1334,43 @@ func c02Pump(c *Ctx) {
 			return
 		}
 	}
-	// ok → Encode(r) must-pass before next select or return
-	isEncode := func(i ssa.Instruction) bool {
-		call, ok := i.(*ssa.Call)
-		return ok && callName(&call.Call) == "(lib.Encoder).Encode" && len(call.Call.Args) == 2 && call.Call.Args[1] == recvVal
+	// ok → Encode(r) must-pass before next select or return; the encode (and observe) may live in a helper
+	isEncodeIn := func(val ssa.Value) func(ssa.Instruction) bool {
+		return func(i ssa.Instruction) bool {
+			call, ok := i.(*ssa.Call)
+			return ok && callName(&call.Call) == "(lib.Encoder).Encode" && len(call.Call.Args) == 2 && call.Call.Args[1] == val
+		}
 	}
-	setE := exploreBlock(okSucc, isEncode)
+	ctxFn, ctxVal := fn, recvVal
+	var ctxStart *ssa.BasicBlock = okSucc
+	isConsume := isEncodeIn(recvVal)
+	if len(findInstrs(fn, isConsume)) == 0 {
+		// helper H(..., r, ...) that encodes its parameter on every path
+		eachInstr(fn, func(i ssa.Instruction) {
+			call, ok := i.(*ssa.Call)
+			if !ok {
+				return
+			}
+			h := call.Call.StaticCallee()
+			if h == nil || h.Pkg != fn.Pkg || len(h.Blocks) == 0 {
+				return
+			}
+			for k, arg := range call.Call.Args {
+				if arg != recvVal || k >= len(h.Params) {
+					continue
+				}
+				p := h.Params[k]
+				enc := isEncodeIn(p)
+				set := explore(h.Blocks[0].Instrs[0], true, enc)
+				if len(findInstrs(h, enc)) > 0 && len(returnsIn(set)) == 0 {
+					theCall := call
+					isConsume = func(x ssa.Instruction) bool { return x == ssa.Instruction(theCall) }
+					ctxFn, ctxVal, ctxStart = h, p, h.Blocks[0]
+				}
+			}
+		})
+	}
+	setE := exploreBlock(okSucc, isConsume)
 	skipped := false
 	for i := range setE {
 		if i == ssa.Instruction(sel) {
@@ -1350,9 +1381,10 @@ func c02Pump(c *Ctx) {
 		c.Fail(key, rule, "a received result can be dropped without being encoded", c.at(okIf))
 		return
 	}
-	// Observe: on the pm != nil edge, Observe(recvVal) must-pass before Encode
+	// Observe: on the pm != nil edge, Observe(v) must-pass before Encode
+	isEncode := isEncodeIn(ctxVal)
 	var pmIf *ssa.If
-	eachInstr(fn, func(i ssa.Instruction) {
+	eachInstr(ctxFn, func(i ssa.Instruction) {
 		if bo, ok := i.(*ssa.BinOp); ok && bo.Op == token.NEQ {
 			if p, ok := bo.X.(*ssa.Parameter); ok && isNamedType(p.Type(), "lib/prom", "Metrics") {
 				if k, ok := bo.Y.(*ssa.Const); ok && k.Value == nil {
@@ -1361,13 +1393,15 @@ func c02Pump(c *Ctx) {
 			}
 		}
 	})
-	if pmIf == nil || !edgeDominates(okIf.Block(), indexOfSucc(okIf.Block(), okSucc), pmIf.Block()) {
-		c.Fail(key, rule, "no `pm != nil` test on the received-result path", c.at(okIf))
+	encs := findInstrs(ctxFn, isEncode)
+	if pmIf == nil || len(encs) == 0 || !instrDominates(pmIf, encs[0]) || (ctxFn == fn && !edgeDominates(okIf.Block(), indexOfSucc(okIf.Block(), okSucc), pmIf.Block())) {
+		c.Fail(key, rule, "no `pm != nil` test before the result is encoded", c.at(okIf))
 		return
 	}
+	_ = ctxStart
 	isObserve := func(i ssa.Instruction) bool {
 		call, ok := i.(*ssa.Call)
-		return ok && callName(&call.Call) == "(*lib/prom.Metrics).Observe" && len(call.Call.Args) == 2 && call.Call.Args[1] == recvVal
+		return ok && callName(&call.Call) == "(*lib/prom.Metrics).Observe" && len(call.Call.Args) == 2 && call.Call.Args[1] == ctxVal
 	}
 	setO := exploreBlock(pmIf.Block().Succs[0], isObserve)
 	for i := range setO {
